@@ -19,7 +19,9 @@ Record sconf := mkSConf {
   sc_pic_emb : option (bytes * option bytes);      (* embedded picture and its MIME type *)
   sc_pic_file : option bytes;                      (* cover file *)
   sc_no_readpicture : bool;                        (* server predates readpicture *)
-  sc_limit : N                                     (* binary chunk limit (binarylimit) *)
+  sc_limit : N;                                    (* binary chunk limit (binarylimit) *)
+  sc_file_ack : bool;                              (* no cover file: ACK 50 (true) or an empty reply (false) *)
+  sc_rp_err : option N                             (* readpicture fails with this error code *)
 }.
 
 Record sstate := mkS {
@@ -74,6 +76,8 @@ Definition exec_cmd (cf : sconf) (idx : N) (line : bytes) : bytes + bytes :=
     else if beq name (b "readpicture") || beq name (b "albumart") then
       if beq name (b "readpicture") && sc_no_readpicture cf
       then inr (ack_line 5 idx [] (b "unknown command ""readpicture"""))
+      else if beq name (b "readpicture") && match sc_rp_err cf with Some _ => true | None => false end
+      then inr (ack_line (match sc_rp_err cf with Some c => c | None => 0 end) idx name (b "err"))
       else
         match args with
         | [_; off] =>
@@ -88,7 +92,7 @@ Definition exec_cmd (cf : sconf) (idx : N) (line : bytes) : bytes + bytes :=
             end
           else
             match sc_pic_file cf with
-            | None => inr (ack_line 50 idx name (b "No file exists"))
+            | None => if sc_file_ack cf then inr (ack_line 50 idx name (b "No file exists")) else inl []
             | Some pic =>
               if N.of_nat (length pic) <? o then inr (ack_line 2 idx name (b "Bad file offset"))
               else inl (picture_reply pic None (sc_limit cf) o)
